@@ -25,7 +25,7 @@ EXPLANATION = (
     "capacities and costs are kept per arc (never per ordered node pair), parallel arcs are pooled only in the returned "
     "dictionaries, by accumulation; (O6) network-simplex tree update - the subtree cut off by the leaving arc is "
     "re-rooted at the entering arc's endpoint (stem reversed), every tree change is followed by a refresh of depths "
-    "and potentials, tree arcs stay basic whatever their flow. NOT decided: minimality, agreement of the two solvers, "
+    "and potentials, tree arcs stay basic whatever their flow. (O7) pivot mechanics of the network simplex - arc table and artificial arcs, one reduced-cost formula, pricing rule, push direction, ratio test and augmentation coherent and mirrored on the two cycle halves, join, residual, initial potentials; node universe, source distance and path reconstruction of min_cost_flow. NOT decided: minimality, agreement of the two solvers, "
     "anti-cycling / termination of the pivot loop (bounded by max_iter only)."
 )
 
